@@ -697,6 +697,32 @@ def check_c17(tier, seed):
         if not np.array_equal(t.data, snap):
             b.fail("C17.bounded.default_copy", dict(entry=entry.__name__), "tensor sees later changes of its input")
         a[0] = snap[0]
+    # asarray / astensor reuse the memory of every layout (C, F, transposed, strided, column view) when the dtype allows
+    for lay, mk in (("C", lambda z: z.copy()), ("F", np.asfortranarray), ("transposed", lambda z: z.T), ("strided", lambda z: z[:, ::2]), ("reversed", lambda z: z[::-1])):
+        z = mk(rng.uniform(1, 2, size=(3, 4)))
+        for entry in ("asarray(ndarray)", "asarray(tensor)", "astensor(ndarray)", "tensor(copy=False)", "asarray(tensor-view)"):
+            desc = dict(contract="memory reuse", layout=lay, entry=entry)
+            b.count("memory reuse")
+            if entry == "asarray(ndarray)":
+                r = mg.asarray(z)
+                ok = r is z
+            elif entry == "asarray(tensor)":
+                t_ = mg.tensor(z, copy=False)
+                r = mg.asarray(t_)
+                ok = r is t_.data and np.shares_memory(r, z)
+            elif entry == "astensor(ndarray)":
+                r = mg.astensor(z)
+                ok = r.data is z or (np.shares_memory(r.data, z) and r.data.strides == z.strides)
+            elif entry == "tensor(copy=False)":
+                r = mg.tensor(z, copy=False)
+                ok = np.shares_memory(r.data, z) and r.data.strides == z.strides
+            else:
+                t_ = mg.tensor(z.copy())[:, 1]
+                r = mg.asarray(t_)
+                ok = r is t_.data
+            if not ok:
+                b.fail("C17.bounded.memory_not_reused", desc, "the result does not reuse the input's memory although the dtype matches")
+            b.case(desc)
     arr = mg.asarray(mg.tensor(a))
     b.case(dict(contract="asarray-shares"))
     if not isinstance(arr, np.ndarray) or not np.shares_memory(arr, mg.asarray(arr)):
@@ -764,7 +790,7 @@ def check_c18(tier, seed):
     rng = np.random.default_rng(seed)
     b = Bounded(
         "C18.bounded",
-        bound="shapes {(), (0,), (0,3), (3,), (2,3)} x dtypes {bool,int8,int64,float16,float32,float64} x constant x {no grad, own grad, view with view-grad} x {path, path without .npz, BytesIO, TemporaryFile}",
+        bound="shapes {(), (0,), (0,3), (3,), (2,3)} x dtypes {bool,int8,int64,float16,float32,float64} x constant x {no grad, own grad, view with view-grad (read before save), view whose grad was never read before save, view whose cached view-grad is stale} x {path, path without .npz, BytesIO, TemporaryFile}",
         rule="case = (shape, dtype, constant, gradient kind, file kind); non-trivial = round trip executed and every field compared",
     )
     tmpdir = tempfile.mkdtemp(prefix="mygrad-verif-c18-")
@@ -773,7 +799,7 @@ def check_c18(tier, seed):
         for shape in [(), (0,), (0, 3), (3,), (2, 3)]:
             for dt in (np.bool_, np.int8, np.int64, np.float16, np.float32, np.float64):
                 for const in (None, True):
-                    for gk in ("none", "own", "view"):
+                    for gk in ("none", "own", "view", "view-unread", "view-stale"):
                         if np.dtype(dt).kind != "f" and gk != "none":
                             continue
                         if const and gk != "none":
@@ -785,10 +811,23 @@ def check_c18(tier, seed):
                                 (t * 2.0).sum().backward() if t.size else t.backward() if t.ndim == 0 else (t * 2.0).sum().backward()
                             elif gk == "view":
                                 base = mg.tensor(rng.uniform(-2, 2, size=(2,) + shape).astype(dt))
-                                t = base[1]
+                                t = base[1, ...]  # `...` keeps a 0-d result a view (base[1] of a 1-d array is a copy)
                                 (base * 3.0).sum().backward()
+                            elif gk in ("view-unread", "view-stale"):
+                                base = mg.tensor(rng.uniform(-2, 2, size=(2,) + shape).astype(dt))
+                                t = base[1, ...]  # `...` keeps a 0-d result a view (base[1] of a 1-d array is a copy)
+                                (base * 3.0).sum().backward()
+                                g_expect = np.full(shape, 3.0, dtype=dt)
+                                if gk == "view-stale":
+                                    t.grad  # caches the window onto the first gradient
+                                    (base * 5.0).sum().backward()
+                                    g_expect = np.full(shape, 5.0, dtype=dt)
                             desc = dict(shape=list(shape), dtype=np.dtype(dt).name, constant=const, grad=gk, file=fk)
-                            d0, g0 = t.data.copy(), None if t.grad is None else t.grad.copy()
+                            if gk in ("view-unread", "view-stale"):
+                                # the expected gradient is computed without reading t.grad before the save
+                                d0, g0 = t.data.copy(), g_expect
+                            else:
+                                d0, g0 = t.data.copy(), None if t.grad is None else t.grad.copy()
                             fields0 = (t.creator, t.base, t.constant, len(t._ops))
                             try:
                                 n += 1
